@@ -50,6 +50,7 @@ def parse : List String → Option Op
   | ["cancel", which, fd] => do pure (.cancel (← parseWhich which) (← fd.toNat?))
   | ["connect", timeo, outcomes] => some (.connect (timeo ≠ "-") (parseOutcomes outcomes))
   | ["cancelc"] => some .cancelc
+  | ["fdbase", n] => do let n ← n.toNat?; if n < 64 then pure (.fdbase n) else none
   | ["spin"] => some .spin
   | _ => none
 
